@@ -175,6 +175,14 @@ def cases(tier):
             for order in itertools.permutations(trio):
                 out.append(program(pipe, list(order)))
             out.append(program(pipe, [xfer_script(0, [(6, 1)]), xfer_script(1, [(2, huge), (2, huge)])]))
+    # ALL limits far above the throughput (the shares are scaled by 1e-10 ... 1e-12, and change by a factor of two or three when a
+    # transfer joins or leaves): the scaling is relative, no absolute magnitude of it is "small enough not to matter"
+    for pipe in ('p1', 'p2'):
+        for la, lb, lc in ((1e10, 3e10, 1e10), (1e12, 1e12, 2e12), (2e10, 1e10, 4e10)):
+            for sb in (0, 1):
+                out.append(program(pipe, [xfer_script(0, [(4, la)]), xfer_script(sb, [(2, lb)])]))
+                out.append(program(pipe, [xfer_script(0, [(4, la)]), xfer_script(sb, [(2, lb)]), xfer_script(1, [(1, lc), (1, lc)])]))
+                out.append(program(pipe, [xfer_script(1, [(2, la), (1, lb)]), xfer_script(0, [(4, lc)])]))
     # endless background traffic (volume inf) that holds its share until it is interrupted, next to ordinary transfers
     for pipe in ('p1', 'p2', 'p3'):
         for lim in (None, 1, 4):
